@@ -241,8 +241,10 @@ fn generic<S: El>(c: &Case, cov: &mut Cov) -> CheckResult {
             let nd = if c.reassign == 2 { 1 + (h0 % 9) as usize } else { dims[ch] };
             let mut v: Vec<S> = Vec::with_capacity(nd + 1 + (h0 >> 8) as usize % 7);
             v.extend((0..nd).map(|i| S::of(mix(h0, i as u64))));
-            chains!()[ch].current_state = v.clone();
-            model[ch] = v;
+            // (the clone, which has no spare capacity, goes to the model; the vector with spare
+            // capacity goes to the chain)
+            model[ch] = v.clone();
+            chains!()[ch].current_state = v;
             dims[ch] = nd;
             cov.class("current_state-reassigned(spare-capacity)");
         }
